@@ -32,6 +32,8 @@ RULE = (
 )
 ASSUMPTIONS = [
     "ids are not reused while their actor is alive (reuse after stopChild is generated)",
+    "a delayed send whose addressee was stopped and whose id was re-used by a new actor before the delay ran out is not "
+    "judged (sync drops it, async delivers it to the new holder; the statement does not say which)",
     "the service key is used as an address only when exactly one child of that service exists or when several auto-id "
     "children make it ambiguous (must be dropped)",
 ]
@@ -121,6 +123,7 @@ class Model:
         self.now = 0
         self.fromkid = []
         self.n_auto = 0
+        self.gen = 0
 
     def alive(self):
         return [a for a in self.order if self.actors[a]["alive"]]
@@ -308,7 +311,8 @@ def check_case(case) -> CaseResult:
                 judged = False  # a live systemId is re-registered: unspecified
                 left = "unjudged"
                 break
-            m.actors[full] = {"alive": True, "sys": cmd[2], "inbox": [], "grand": None}
+            m.gen += 1
+            m.actors[full] = {"alive": True, "sys": cmd[2], "inbox": [], "grand": None, "gen": m.gen}
             if full in m.order:
                 m.order.remove(full)
             m.order.append(full)
@@ -317,7 +321,8 @@ def check_case(case) -> CaseResult:
         elif k == "SPAWN_AUTO":
             m.n_auto += 1
             full = f"par:kid:<auto{m.n_auto}>"
-            m.actors[full] = {"alive": True, "sys": None, "inbox": [], "grand": None, "auto": True}
+            m.gen += 1
+            m.actors[full] = {"alive": True, "sys": None, "inbox": [], "grand": None, "auto": True, "gen": m.gen}
             m.order.append(full)
         elif k in ("SEND", "FWD"):
             tgt, how = m.resolve(cmd[1])
@@ -338,7 +343,7 @@ def check_case(case) -> CaseResult:
             if tgt is not None:
                 if cmd[3] in m.pending:
                     del m.pending[cmd[3]]  # reusing a send id supersedes the earlier send
-                m.pending[cmd[3]] = (m.now + cmd[2], tgt, i)
+                m.pending[cmd[3]] = (m.now + cmd[2], tgt, i, m.actors[tgt]["gen"])
         elif k == "CANCEL":
             if cmd[1] in m.pending:
                 nontrivial = True
@@ -385,11 +390,20 @@ def check_case(case) -> CaseResult:
                     m.system.pop(m.actors[tgt]["gsys"], None)
                     m.actors[tgt]["gsys"] = None
         # deliver due delayed sends
-        for sid, (due, tgt, seq) in list(m.pending.items()):
+        stale_target = False
+        for sid, (due, tgt, seq, gen) in list(m.pending.items()):
             if due <= m.now:
-                if m.actors[tgt]["alive"]:
+                if m.actors[tgt]["alive"] and m.actors[tgt]["gen"] != gen:
+                    # the addressed actor was stopped and its id re-used before the delay ran out:
+                    # whether the new holder of the id receives it is not specified (the engines differ)
+                    stale_target = True
+                elif m.actors[tgt]["alive"]:
                     m.actors[tgt]["inbox"].append(seq)
                 del m.pending[sid]
+        if stale_target:
+            judged = False
+            left = "unjudged"
+            break
         # ---- compare
         real = o["actors"]
         exp_alive = m.alive()
